@@ -3,15 +3,27 @@ package concurrent
 // Execute a function concurrently for each element of a collection.
 // Specify the max number of goroutines running at the same time.
 func Foreach[E any](concurrencyLimit int, collection []E, f func(E)) {
+	vhook("foreach.begin", len(collection), concurrencyLimit)
+	vnext := 0
 	sem := make(chan bool, concurrencyLimit)
 	for _, element := range collection {
+		vidx := vnext
+		vnext++
+		vhook("foreach.acquire.try", vidx)
 		sem <- true
+		vhook("foreach.acquired", vidx)
 		go func(element E) {
+			vhook("foreach.start", vidx, element)
 			f(element)
+			vhook("foreach.done", vidx)
 			<-sem
+			vhook("foreach.released", vidx)
 		}(element)
 	}
 	for range cap(sem) {
+		vhook("foreach.drain.try")
 		sem <- true
+		vhook("foreach.drained")
 	}
+	vhook("foreach.return")
 }
